@@ -35,6 +35,12 @@ template <class P> static void run(const std::string& src, bool reduce, const st
       std::vector<mpz_class> vals; for (auto& s : v) vals.push_back(mpz_class(s, 10));
       if (src == "range") a.set_mpz(vals.begin(), vals.end());
       else if (src == "scalar") a.set_mpz(vals[0]);
+      // every other single-integer entry point: set_mpz(mpz_t), operator=(mpz_class), operator=(mpz_t), the two constructors
+      else if (src == "scalar_t") { mpz_t z; mpz_init_set(z, vals[0].get_mpz_t()); a.set_mpz(z); mpz_clear(z); }
+      else if (src == "assign") a = vals[0];
+      else if (src == "assign_t") { mpz_t z; mpz_init_set(z, vals[0].get_mpz_t()); a = z; mpz_clear(z); }
+      else if (src == "ctor") { P* b = alloc_aligned<P, 32>(1, vals[0]); os << "ok"; show(os, *b); free_aligned(1, b); return; }
+      else if (src == "ctor_t") { mpz_t z; mpz_init_set(z, vals[0].get_mpz_t()); P* b = alloc_aligned<P, 32>(1, z); mpz_clear(z); os << "ok"; show(os, *b); free_aligned(1, b); return; }
       else if (src == "array") { std::array<mpz_class, P::degree> arr; for (size_t i = 0; i < P::degree; i++) arr[i] = vals[i]; a.set_mpz(arr); }
     }
   } catch (std::runtime_error const&) { thrown = true; }
